@@ -108,6 +108,7 @@ class Extractor:
         self.functions = []   # evidence records
         self.types = []
         self.rewrite_counts = {}
+        self.unmatched_wraps = []   # wraps / maps whose expression was not found (reported; the function is verified unrewritten)
         self.gwraps = []      # unit-wide optional wraps (applied to every function extracted after the directive)
         self._cache = {}
 
@@ -581,7 +582,9 @@ class Extractor:
         for a, b in fs.maps:
             n = text.count(a)
             if n == 0:
-                raise ExtractError("lost anchor: map %r not found in %s" % (a, fs.name))
+                self._count(rec, "unmatched-map:" + a, 1)
+                self.unmatched_wraps.append("%s: map %s" % (fs.name, a))
+                continue
             text = text.replace(a, b)
             self._count(rec, "map:" + a, n)
         for a, b in (("num_integer::div_ceil(", "ni_div_ceil("), ("num_integer::div_floor(", "ni_div_floor(")):
@@ -593,9 +596,12 @@ class Extractor:
             masked = L.mask_code(text)
             ms = list(re.finditer(rx, masked))
             if not ms:
-                if optional:
-                    continue
-                raise ExtractError("lost anchor: wrap %r not found in %s" % (rx, fs.name))
+                if not optional:
+                    # a wrap is a dialect adapter, not an anchor: when the expression it adapts is gone (the code changed) the
+                    # function is verified as it stands - Verus either takes it (decided) or rejects the construct (undecided)
+                    self._count(rec, "unmatched-wrap:" + rx, 1)
+                    self.unmatched_wraps.append("%s: %s" % (fs.name, rx))
+                continue
             for m in reversed(ms):
                 # the regex ran on masked text; groups are taken from the *real* text at the same offsets
                 def grp(k, m=m):
